@@ -147,6 +147,11 @@ def _fh(x, p):
     V, R = x; a, b, c = p
     return [c*(V - V**3/3 + R), -((V - a + b*R)/c)]
 
+def _sisp(x, p, t=0.0):
+    S, I = x; gamma, beta0, delta, period, N = p
+    betaT = beta0 * (1 - delta * math.cos(2 * 3.14159 * t / period))        # common_models writes 3.14159 for pi
+    return [-betaT*S*I/N + gamma*I, betaT*S*I/N - gamma*I]
+
 ALL5 = ["SquareLoss", "NormalLoss", "PoissonLoss", "GammaLoss", "NegBinomLoss"]
 CATALOGUE = {
     "SIR": dict(rhs=_sir, params=["beta", "gamma", "N"], states=["S", "I", "R"],
@@ -173,19 +178,27 @@ CATALOGUE = {
                            x0=lambda r, th: [float(r.uniform(8, 14)), float(r.uniform(4, 8))],
                            T=(6, 12), obs=[["x"], ["x", "y"]], targets=[None, ["alpha", "gamma"], ["alpha", "beta", "gamma", "delta"]],
                            losses=ALL5),
+    # seasonally forced: the only catalogue entries whose right-hand side reads the clock
+    "SIS_Periodic": dict(rhs=_sisp, params=["gamma", "beta0", "delta", "period", "N"], states=["S", "I"],
+                         truth=lambda r: [r.uniform(.8, 1.2), r.uniform(1.6, 2.4), r.uniform(.4, .7), 5.0, 1.0],
+                         x0=lambda r, th: (lambda i0: [1.0 - i0, i0])(float(r.uniform(.05, .2))),
+                         T=(8, 12), obs=[["I"], ["S", "I"]], targets=[["beta0", "delta"], ["gamma", "beta0"]],
+                         losses=["SquareLoss", "NormalLoss"]),
     "FitzHugh": dict(rhs=_fh, params=["a", "b", "c"], states=["V", "R"],
                      truth=lambda r: [r.uniform(.15, .3), r.uniform(.15, .3), r.uniform(2.5, 3.5)],
                      x0=lambda r, th: [float(r.uniform(-1.2, -.8)), float(r.uniform(.8, 1.2))],
                      T=(8, 16), obs=[["V"], ["V", "R"]], targets=[None, ["a", "b"]], losses=["SquareLoss", "NormalLoss"]),
 }
-QUICK_MODELS = ["SIR", "SIS", "SIR_norm", "Lotka_Volterra", "FitzHugh", "SEIR"]
+QUICK_MODELS = ["SIR", "SIS", "SIR_norm", "Lotka_Volterra", "FitzHugh", "SEIR", "SIS_Periodic"]
 
 
 def indep_traj(model, theta, x0, times):
     """trajectory at times[1:] from the hand-written right-hand side, integrator independent of pygom's wrappers"""
     from scipy.integrate import solve_ivp
     f = CATALOGUE[model]["rhs"]
-    s = solve_ivp(lambda t, x: f(x, theta), (times[0], times[-1]), x0, method="DOP853", t_eval=times[1:],
+    import inspect
+    timed = len(inspect.signature(f).parameters) >= 3
+    s = solve_ivp((lambda t, x: f(x, theta, t)) if timed else (lambda t, x: f(x, theta)), (times[0], times[-1]), x0, method="DOP853", t_eval=times[1:],
                   rtol=1e-11, atol=1e-13)
     if not s.success:
         raise common.InternalError("reference integrator failed on %s" % model)
@@ -300,6 +313,11 @@ def fit_corpus():
                                                x0=[990.0, 10.0, 0.0], T=0.5, nobs=26, t_shift=2020.0)),
         gen_fit_case(r, ["SIR"], "random", dict(obs=["I"], target=["beta", "gamma"], loss="NormalLoss", truth=[60.0, 26.0, 1000.0],
                                                 x0=[990.0, 10.0, 0.0], T=0.5, nobs=26, t_shift=2020.0)),
+        # a forced model observed from a time that is not a multiple of the forcing period; a tiny seed in proportions
+        gen_fit_case(r, ["SIS_Periodic"], "truth", dict(obs=["I"], target=["beta0", "delta"], loss="SquareLoss", t_shift=3.0)),
+        gen_fit_case(r, ["SIS_Periodic"], "random", dict(obs=["S", "I"], target=["gamma", "beta0"], loss="NormalLoss", t_shift=3.0)),
+        gen_fit_case(r, ["SIR_norm"], "truth", dict(obs=["I"], target=None, loss="SquareLoss", truth=[0.5, 1.0 / 3.0],
+                                                    x0=[1.0 - 1e-8, 1e-8, 0.0], T=70.0, nobs=12)),
         # head counts instead of proportions: the transmission parameter is of order 1e-9
         gen_fit_case(r, ["SIR_norm"], "truth", dict(obs=["I"], target=None, loss="SquareLoss", truth=[4e-9, 0.25],
                                                     x0=[1e8 - 1e3, 1e3, 0.0], T=40.0)),
